@@ -5,6 +5,7 @@ package main
 import (
 	"bytes"
 	"context"
+	"encoding/json"
 	"fmt"
 	"os"
 	"os/exec"
@@ -19,6 +20,7 @@ import (
 	"github.com/BlackVectorOps/semantic_firewall/v3/internal/cli"
 	"github.com/BlackVectorOps/semantic_firewall/v3/pkg/analysis/ir"
 	"github.com/BlackVectorOps/semantic_firewall/v3/pkg/diff"
+	"github.com/BlackVectorOps/semantic_firewall/v3/pkg/models"
 )
 
 // Property oracles on the REAL fingerprinting / diff code for the SSA-level properties:
@@ -206,6 +208,20 @@ func suiteFpDet(c *Ctx) error {
 				check("symlinked-directory", triples(via))
 			} else {
 				c.Skip("symlinked_directory_load_failed")
+			}
+		}
+		// the source file itself is a symlink into a directory outside the module (a generated file kept in
+		// a build cache, a vendored copy managed by a tool): the location is still the caller's module
+		if f2, err := writeModule(c.Work, fmt.Sprintf("d%d_flink", i), "a.go", src); err == nil {
+			blobDir := filepath.Join(c.Work, fmt.Sprintf("d%d_blob", i))
+			blob := filepath.Join(blobDir, "orig.go")
+			if os.MkdirAll(blobDir, 0o755) == nil && os.WriteFile(blob, []byte(src), 0o644) == nil && os.Remove(f2) == nil && os.Symlink(blob, f2) == nil {
+				via, err := diff.FingerprintSource(f2, src, ir.DefaultLiteralPolicy)
+				if err == nil {
+					check("file-is-a-symlink", triples(via))
+				} else {
+					c.Skip("symlinked_file_load_failed")
+				}
 			}
 		}
 		// other processes, GOMAXPROCS 1 / 2 / 16 (fresh runtime, fresh pool, fresh map seeds)
@@ -733,6 +749,23 @@ func collideSpecials(c *Ctx, r *Rng) error {
 				}
 				rp["diff_entry"] = fd
 				c.Violate("C04", "C04/behaviour-change-reported-preserved:"+sp.Family+":"+how, fmt.Sprintf("%s: outputs differ but diff reports the function preserved (%s)", sp.Name, how), rp)
+			}
+		}
+		// the same verdict as the COMMAND prints it (`sfw diff`, flags and their defaults included)
+		if sfw := os.Getenv("VERIF_SFW"); sfw != "" && !onlyAbstracted {
+			so, se, _ := runSfw(sfw, 4, filepath.Dir(fP), "diff", "--no-sandbox", fP, fQ)
+			var cliOut models.DiffOutput
+			if err := json.Unmarshal([]byte(so), &cliOut); err != nil || len(cliOut.Functions) == 0 {
+				c.Skip("special_cli_diff_unreadable")
+				_ = se
+				continue
+			}
+			c.Count("special_cli_diff")
+			for _, fd := range cliOut.Functions {
+				if fd.Function == changed && fd.Status == "preserved" {
+					rp["cli_diff_entry"] = fd
+					c.Violate("C04", "C04/behaviour-change-reported-preserved:"+sp.Family+":sfw-diff", fmt.Sprintf("%s: outputs differ but `sfw diff` reports the function preserved", sp.Name), rp)
+				}
 			}
 		}
 	}
